@@ -33,7 +33,7 @@ BODIES = {"POST": b"a=1&b=%20", "PUT": b"\x00\xff\r\n"}
 PATHS_Q = ["/", "/a%20b", "/a%2Fb", "/%E9", "/%c3%a9/x", "/a+b", "/a%", "/a%25"]
 PATHS_T = PATHS_Q + ["/a%zz", "/%e", "/a//b/./c", "/a%00b", "/%2525", "/a;p=1", "/*", "/~a",
                      "/a%3Fb", "/a%23b"]
-QUERIES_Q = [None, "x=1&y=%20", ""]
+QUERIES_Q = [None, "x=1&y=%20", "", "q=caf\xe9"]      # (the last: a raw obs-text byte in the query)
 QUERIES_T = QUERIES_Q + ["?a", "a+b=%2B", "x=%"]
 
 # (Host header value or None, HTTP version, class, allowed SERVER_NAMEs (lower) or None,
@@ -211,7 +211,7 @@ def check_environ(env, inp, r, hostinfo):
     # --- wsgi.* ---
     if env.get("wsgi.version") != (1, 0):
         yield ("wsgi.version", repr(env.get("wsgi.version")))
-    if env.get("wsgi.url_scheme") != "http":
+    if env.get("wsgi.url_scheme") != r.get("scheme", "http"):
         yield ("wsgi.url_scheme", repr(env.get("wsgi.url_scheme")))
     if inp != r["body"]:
         yield ("wsgi.input", "read() gave %r, body was %r" % (inp, r["body"]))
@@ -326,7 +326,7 @@ def wsgi_app(environ, start_response):
     return _Closable(chunks)
 
 
-def execute(reqs, specs, segmented=False):
+def execute(reqs, specs, segmented=False, https=False):
     """Run the requests (pipelined in one segment unless segmented) on one
     connection.  Returns dict(env=[(environ, input)], out, closed, logs)."""
     from mc.vloop import World
@@ -337,7 +337,7 @@ def execute(reqs, specs, segmented=False):
     with World() as w:
         container = WSGIContainer(wsgi_app)
         assert container.executor is dummy_executor
-        c = ServerConn(w, container, peer=(PEER_IP, 12345))
+        c = ServerConn(w, container, peer=(PEER_IP, 12345), **({"protocol": "https"} if https else {}))
         if segmented:
             for r in reqs:
                 c.send(build_request(r))
@@ -470,6 +470,9 @@ class C47(Check):
                     for si in range(len(HS)):
                         self.eval_case({"layer": "req", "tier": tier,
                                         "reqs": [[mi, pi, qi, hi, si]]}, st)
+                        if pi == 0 and qi == 0 and si == 0:
+                            self.eval_case({"layer": "req", "tier": tier, "https": True,
+                                            "reqs": [[mi, pi, qi, hi, si]]}, st)
         elif part[0] == "pair":
             _, i = part
             hosts = [0, 1]
@@ -522,9 +525,15 @@ class C47(Check):
     def eval_case(self, case, st):
         from mc.httph import read_responses
         reqs, infos, specs = self.materialize(case)
+        if case.get("https"):
+            # HTTPServer(protocol="https") (TLS terminated in front): the scheme is https, the default port 443
+            for r in reqs:
+                r["scheme"] = "https"
+            infos = [(hc, names, (443 if (port == 80 and not re.search(r":[0-9]+$", reqs[i]["host"] or "")) else port))
+                     for i, (hc, names, port) in enumerate(infos)]
         if case.get("restart"):
             specs = [dict(sp, restart=True) for sp in specs]
-        res = execute(reqs, specs)
+        res = execute(reqs, specs, https=bool(case.get("https")))
         st.ev()
         layer = case["layer"]
         hclass = infos[0][0]
